@@ -50,6 +50,7 @@ type entryFacts struct {
 	Blocked       bool // the caller got a block error
 	BlockDecision bool // a rule-check slot blocked (the caller may still be admitted if a stat slot panicked)
 	HasRealStat   bool
+	StatPanic     bool // a recording statistic slot panicked while being told the outcome
 }
 
 // deriveEntry derives, from the case description alone, what the property demands of one Entry
@@ -99,6 +100,7 @@ func deriveEntry(ch *ChainSpec, o Op) (f *entryFacts, want []Call, blockBy *Berr
 			break
 		}
 	}
+	f.StatPanic = statPanic
 	return f, recording(want), blockBy, statPanic
 }
 
@@ -320,6 +322,7 @@ type ledgerEnt struct {
 	ownErr, ownAddr     int64
 	start               int64
 	uncountedOnResource bool // finding class F1: a prepare slot panicked before the node was prepared
+	blockedButHeld      bool
 }
 
 type counters struct{ pass, block, done, err, rt, gauge int64 }
@@ -373,7 +376,18 @@ func MonitorC01(c *Case, obs []Obs, facts map[int]*entryFacts) (fails []Failure,
 					e.ownErr = -1
 					stats["passed_by_panic"]++
 				}
-				apply(e, func(k *counters) { k.pass += e.batch; k.gauge++ })
+				if f.StatPanic {
+					stats["stat_slot_panic_behind_counting_slot"]++
+				}
+				if f.BlockDecision {
+					// a rule check blocked, the counting slot counted the block, then a later statistic
+					// slot panicked: the caller holds an entry (fail-open), which stays accounted as
+					// blocked - exactly once - and completes nothing
+					e.blockedButHeld = true
+					apply(e, func(k *counters) { k.block += e.batch })
+				} else {
+					apply(e, func(k *counters) { k.pass += e.batch; k.gauge++ })
+				}
 				if ob.CtxErr != e.ownErr {
 					fail("C01_live_context_stable", "fresh-entry-carries-foreign-error", "op %d: new entry's error is %d, expected %d", i, ob.CtxErr, e.ownErr)
 					return
@@ -390,6 +404,15 @@ func MonitorC01(c *Case, obs []Obs, facts map[int]*entryFacts) (fails []Failure,
 					e.ownErr = o.Err
 				}
 				rt := nowMs - e.start
+				if e.blockedButHeld {
+					for _, cl := range ob.Calls {
+						if cl.K == "done" {
+							fail("C01_completion_exact", "completion-for-blocked-entry", "op %d: %s", i, fmtCalls(ob.Calls))
+							return
+						}
+					}
+					continue
+				}
 				apply(e, func(k *counters) {
 					k.done += e.batch
 					if e.ownErr != 0 {
